@@ -46,6 +46,7 @@ def special_grammars(R):
 
 
 def generate(rng, tier, shard, nshards):
+    event = gops.variant_event(rng)
     n = 40 if tier == "quick" else 400
     L = 3
     for gi in range(n):
@@ -89,7 +90,7 @@ def generate(rng, tier, shard, nshards):
                 args["late"] = rng.randint(1, len(G["rules"]) - 1)
                 args["early"] = [SAFE[n_] for n_ in pipe] + [rng.choice(["null_weight", "has_unary_cycle", "derivative"])]
                 f2 = feat + "+rules-added-after-use"
-            yield gops.event("transform", args, site="transform/" + "|".join(pipe), feat=f2)
+            yield event("transform", args, site="transform/" + "|".join(pipe), feat=f2)
 
 
 def visible_string(G, sigma, maxlen, first=None):
